@@ -152,6 +152,14 @@ def run_suite(ctx, name, gen_args, timeout=1200, driver=None):
         env = dict(os.environ, VERIF_REPO=C.REPO)
         p = subprocess.run([driver or prep["driver"]] + [str(a) for a in gen_args], stdout=f, stderr=subprocess.PIPE,
                            text=True, timeout=timeout, env=env)
+    if p.returncode == 97 and "VERIF-HANG" in p.stderr:
+        # a library call did not return within the watchdog limit: a violation of whatever property is being checked
+        # (every property presupposes that Marshal/Unmarshal terminate), reported with the input as replay
+        line = [l for l in p.stderr.split("\n") if l.startswith("VERIF-HANG")][0].split("\t")
+        ctx.violation("hang", {"what": "%s did not return within the watchdog limit (25 s)" % line[1], "go_type": line[2], "input": line[3][:20000],
+                               "replay_cmd": "%s dec-one <type key> %s" % (driver or prep["driver"], line[3][:200])},
+                      text="%s of %s hangs on input %s" % (line[1], line[2], line[3][:120]))
+        return []
     if p.returncode != 0:
         raise RuntimeError("driver %s failed: %s" % (gen_args, p.stderr[-2000:]))
     menv = dict(os.environ)
